@@ -3,7 +3,8 @@ let () =
   let prop = Sys.argv.(1) and file = Sys.argv.(2) in
   let ic = open_in file in
   let run = match prop with
-    | "c01" | "c02" | "c04" | "c12" | "c20" -> C02.run_line
+    | "c04" -> C04.run_line
+    | "c01" | "c02" | "c12" | "c20" -> C02.run_line
     | "c05" -> C05.run_line
     | "c06" | "c07" -> C06.run_line
     | "c08" -> C08.run_line
